@@ -283,7 +283,7 @@ def _single_assignment(func, name):
     return n
 
 
-_INTERPRETED = {"sorted-species", "rhf-odd-electrons", "uhf-fractional-alpha", "uhf-fractional-beta", "negative-occupation", "occupation-exceeds-basis"}
+_INTERPRETED = {"unknown-com-mode", "sorted-species", "rhf-odd-electrons", "uhf-fractional-alpha", "uhf-fractional-beta", "negative-occupation", "occupation-exceeds-basis"}
 _INTERP_CACHE = {}
 
 
@@ -291,6 +291,11 @@ def _interpreted_verdict(repo, rid):
     from ..assembly import interpreted_check_input, interpreted_parser_guards
     key = id(repo)
     c = _INTERP_CACHE.setdefault(key, {})
+    if rid == "unknown-com-mode":
+        if "com" not in c:
+            from ..assembly import com_setup_verdicts
+            c["com"] = com_setup_verdicts(repo)["validation"]
+        return c["com"]
     if rid == "sorted-species":
         if "ci" not in c:
             c["ci"] = interpreted_check_input(repo)
